@@ -1,3 +1,4 @@
+open BinNat
 open BinNums
 open BinPos
 open Datatypes
@@ -257,4 +258,32 @@ module Z =
 
   let modulo a b =
     let (_, r) = div_eucl a b in r
+
+  (** val quotrem : coq_Z -> coq_Z -> coq_Z * coq_Z **)
+
+  let quotrem a b =
+    match a with
+    | Z0 -> (Z0, Z0)
+    | Zpos a0 ->
+      (match b with
+       | Z0 -> (Z0, a)
+       | Zpos b0 ->
+         let (q, r) = N.pos_div_eucl a0 (Npos b0) in ((of_N q), (of_N r))
+       | Zneg b0 ->
+         let (q, r) = N.pos_div_eucl a0 (Npos b0) in
+         ((opp (of_N q)), (of_N r)))
+    | Zneg a0 ->
+      (match b with
+       | Z0 -> (Z0, a)
+       | Zpos b0 ->
+         let (q, r) = N.pos_div_eucl a0 (Npos b0) in
+         ((opp (of_N q)), (opp (of_N r)))
+       | Zneg b0 ->
+         let (q, r) = N.pos_div_eucl a0 (Npos b0) in
+         ((of_N q), (opp (of_N r))))
+
+  (** val quot : coq_Z -> coq_Z -> coq_Z **)
+
+  let quot a b =
+    fst (quotrem a b)
  end
